@@ -81,13 +81,13 @@ PROPS = {
     "C06": {
         "title": "skip() consumes exactly one item",
         "bounds": "structure: ALL byte strings of length N over the 13-letter alphabet of one-byte items (00 20 80 81 82 83 9f a0 a1 bf c1 f6 ff), N = 1..5 (quick) / ..7 (thorough) "
-                  "in the no-alloc build, N = 1..2 (quick) / ..4 (thorough, each capped at 2 h) in the alloc build (explicit Vec stack: ~10x heavier), vs the independent item-boundary parser R3, incl. every strict prefix and arbitrary suffix; "
+                  "in the no-alloc build, N = 1..3 in the alloc build in the THOROUGH tier only (explicit Vec stack: N=2 takes ~13 min; each capped at 2 h); the quick tier checks the alloc build on the heads group only, vs the independent item-boundary parser R3, incl. every strict prefix and arbitrary suffix; "
                   "leaf accessors replaced by one-byte models proven equivalent on that domain (c06_lm_*); heads and strings: one item per concrete initial byte with the real accessors",
-        "outside": "more than N one-byte items; multi-byte heads inside nested containers (compositional: lm_equiv + heads group); depth-10^4 chains; alloc-build stack logic beyond N",
+        "outside": "more than N one-byte items; multi-byte heads inside nested containers (compositional: lm_equiv + heads group); depth-10^4 chains; the alloc build's stack-mode logic beyond N=3 (its smallest witness for a definite map after a closed indefinite sibling needs N=7: not reached); containers that end by running out of input with multi-byte heads",
         "assumptions": ["leaf models (each proven equivalent to the real accessor on the asserted domain)", "from_utf8 modelled as always-valid in the text-head harnesses (boundaries, not validation)"],
         "groups": [core({"quick": ["c06::c06_lm", "c06::c06_a1", "c06_gen::q::"], "thorough": ["c06::c06_", "c06_gen::"]}),
-                   core({"quick": ["c06::c06_a1_n1", "c06::c06_a1_n2", "c06_gen::q::"], "thorough": ["c06::c06_a1_n1", "c06::c06_a1_n2", "c06::c06_a1_n3", "c06::c06_a1_n4", "c06_gen::"]}, features=("half", "alloc"),
-                        timeout={"quick": 1500, "thorough": 7200})],
+                   core({"quick": ["c06_gen::q::", "c06::c06_lm"], "thorough": ["c06::c06_a1_n1", "c06::c06_a1_n2", "c06::c06_a1_n3", "c06_gen::", "c06::c06_lm"]}, features=("half", "alloc"),
+                        timeout={"quick": 600, "thorough": 7200})],
     },
     "C07": {
         "title": "CborLen is exact",
@@ -113,16 +113,16 @@ PROPS = {
         "outside": "encode->decode in ONE query (symbolic cursor after variable-width heads: > 300 s per schema, abandoned); in-head values other than the sampled constants 0/1/22/23; "
                   "borrowing fields (&str, Cow); generic parameters",
         "assumptions": ["Decoder::skip replaced by the R3 model (C06 proves skip == R3); on a lone break byte the model consumes it as the real skip does"],
-        "groups": [derive({"quick": ["::q::c09_"], "thorough": ["::c09_"]})],
+        "groups": [derive({"quick": ["::q::c09_", "::q::c08"], "thorough": ["::c09_", "::c08"]})],
     },
     "C10": {
         "title": "derived codecs are forward/backward compatible",
         "bounds": "19 (writer, reader) pairs over the documented compatible edits (rename/permute, add/drop optional at new and gap index in array and map, variants added to regular and index_only "
                   "enums in optional fields, unit->struct/tuple variant, tagged optional at a gap, unknown fields/keys ignored, missing mandatory => error), each with up to 5 type-directed layouts, "
-                  "all argument bytes symbolic",
+                  "all argument bytes symbolic; the writer side (derived bytes == documented layout) is the C08 harness set, included in this check",
         "outside": "edit sequences longer than one edit; unknown-field contents beyond the two sampled shapes (nested struct, byte string)",
         "assumptions": ["Decoder::skip replaced by the R3 model"],
-        "groups": [derive(["gen::c10::p"])],
+        "groups": [derive({"quick": ["gen::c10::p", "::q::c08"], "thorough": ["gen::c10::p", "::c08"]})],
     },
     "C14": {
         "title": "framed blocking I/O",
@@ -137,11 +137,11 @@ PROPS = {
         "title": "AsyncReader is cancellation-safe",
         "bounds": "ONE inductive step (one harness per Inv state family and offset: ReadLen o=0..4, ReadVal o=0..2): from every reader state satisfying the representation invariant Inv (ReadLen(b,o), o<=4, b[..o] = frame prefix bytes | ReadVal(o), buffer.len()==declared, "
                   "buffer[..o] = payload bytes; source positioned at exactly the bytes accounted for), built through the cfg(minicbor_verif) hook, one read() future is created, polled ONCE and dropped; "
-                  "every inner source read answers Pending / transient error / EOF / 1 byte / up to 4 bytes (<= 2 completed reads per poll); frame = 2-byte payload, EOF point symbolic. "
+                  "every inner source read answers Pending / transient error / EOF / 1 byte / up to 4 bytes (quick: <= 1, thorough: <= 2 completed reads per poll); frame = 2-byte payload, EOF point symbolic. "
                   "Post: value == frame value & source behind the frame & fresh state | Pending/transient error => Inv again | EOF inside => UnexpectedEof | clean end only at a boundary. Base case: new() satisfies Inv",
         "outside": "the lifting from one step to poll/drop schedules of any length is an induction ARGUMENT (post-states are Inv states, which are all covered as pre-states), not a query; payloads > 2 bytes; > 2 completed reads in one poll",
         "assumptions": ["Vec::resize replaced by a fixed-capacity growth model", "hook: cfg(minicbor_verif) __verif_from_parts/__verif_state (add-only)"],
-        "groups": [io(["c15::c15_"], timeout={"quick": 2400, "thorough": 3600}, mem_gb={"quick": 16, "thorough": 24}, jobs={"quick": 3, "thorough": 3})],
+        "groups": [io({"quick": ["c15::c15_q_", "c15::c15_new"], "thorough": ["c15::c15_"]}, timeout={"quick": 800, "thorough": 3600}, mem_gb={"quick": 14, "thorough": 24}, jobs={"quick": 4, "thorough": 3})],
     },
     "C16": {
         "title": "AsyncWriter delivers whole frames in order under short writes and cancel+sync",
@@ -177,25 +177,21 @@ PROPS = {
         "title": "same behaviour in every feature configuration",
         "bounds": "no cross-build query exists: agreement is shown by TRANSITIVITY through a complete oracle. The identical harness sources of C05 (all integer heads x all accessors), C04 (accessors vs R1/R8), "
                   "C03 (every Encoder method), C06 (skip vs R3; the documented no-alloc difference is cfg-ed into the oracle) and, with half, C11 steps / C12 are verified against minicbor built with "
-                  "{}, {alloc}, {std} (quick) x {half on/off} (thorough adds the remaining combinations); each harness fixes, for every input in its bound, the Ok/Err outcome, the value and the position, "
-                  "so builds that all satisfy it agree with each other. minicbor-serde: the C17 Serializer/Deserializer harnesses under {half}, {alloc,half}, {std,half}",
+                  "{} and {alloc} (quick: the u8/u64/i8/i64/Int/char accessors, datatype, the u64/i64/simple encoder methods, skip models and skip on N=3); thorough adds {std}, {half,std}, {half,alloc} and the full harness sets; each harness fixes, for every input in its bound, the Ok/Err outcome, the value and the position, "
+                  "so builds that all satisfy it agree with each other. minicbor-serde: C17 Serializer/Deserializer harnesses under {} (quick) and {alloc,half}, {std,half} (thorough); {half} is what C17 itself checks",
         "outside": "error MESSAGES (static vs formatted) and error classes beyond Ok/Err where the single-build oracle only requires 'an error'; 32-bit targets and atomic32; the alloc-build skip beyond N=3",
         "assumptions": ["agreement is derived by transitivity (argument), each build is decided by its own queries"],
         "groups": [
-            core({"quick": ["c05::c05_u", "c05::c05_i", "c05::c05_datatype_i", "c04::c04_", "c03::c03_u", "c03::c03_i", "c03::c03_simple", "c06::c06_lm", "c06::c06_a1_n3", "c06::c06_a1_n2"],
-                  "thorough": ["c05::c05_", "c04::c04_", "c03::c03_", "c06::c06_lm", "c06::c06_a1_n", "::q::c01", "::q::c07"]}, features=()),
-            core({"quick": ["c05::c05_u", "c05::c05_i", "c05::c05_datatype_i", "c04::c04_", "c03::c03_u", "c03::c03_i", "c03::c03_simple", "c06::c06_lm", "c06::c06_a1_n2"],
-                  "thorough": ["c05::c05_", "c04::c04_", "c03::c03_", "c06::c06_lm", "c06::c06_a1_n1", "c06::c06_a1_n2", "c06::c06_a1_n3", "::q::c01", "::q::c07"]}, features=("alloc",)),
-            core({"quick": ["c05::c05_u", "c05::c05_i", "c05::c05_datatype_i", "c04::c04_", "c03::c03_u", "c03::c03_i", "c03::c03_simple"],
-                  "thorough": ["c05::c05_", "c04::c04_", "c03::c03_", "::q::c01", "::q::c07"]}, features=("std",)),
-            core({"quick": ["c05::c05_u8", "c05::c05_i64", "c12::c12_", "c11_gen::q::ib_f9", "c11_gen::q::ib_1b", "c11_gen::q::ib_9f"],
-                  "thorough": ["c05::c05_", "c04::c04_", "c12::c12_", "c11_gen::q::"]}, features=("half", "alloc")),
-            core({"quick": ["c05::c05_u8", "c05::c05_i64", "c12::c12_", "c11_gen::q::ib_f9"],
-                  "thorough": ["c05::c05_", "c04::c04_", "c12::c12_", "c11_gen::q::"]}, features=("half", "std")),
-            serde({"quick": ["c17::c17_ser_u", "c17::c17_ser_i", "c17::c17_de_u", "c17::c17_de_i", "c17::c17_de_seq", "c17::c17_de_map"],
-                   "thorough": ["c17::c17_"]}, features=("half", "alloc")),
-            serde({"quick": ["c17::c17_ser_u", "c17::c17_de_u", "c17::c17_de_seq"], "thorough": ["c17::c17_"]}, features=("half", "std")),
-            serde({"quick": ["c17::c17_ser_u", "c17::c17_de_u", "c17::c17_de_seq"], "thorough": ["c17::c17_"]}, features=()),
+            core({"quick": ["c05::c05_u8", "c05::c05_u64", "c05::c05_i8", "c05::c05_i64", "c05::c05_int", "c05::c05_char", "c04::c04_datatype", "c04::c04_bytes_definite", "c03::c03_u64", "c03::c03_i64", "c03::c03_simple", "c06::c06_lm", "c06::c06_a1_n3"],
+                  "thorough": ["c05::c05_", "c04::c04_", "c03::c03_", "c06::c06_lm", "c06::c06_a1_n", "::q::c01", "::q::c07"]}, features=(), timeout={"quick": 400, "thorough": 3600}),
+            core({"quick": ["c05::c05_u8", "c05::c05_u64", "c05::c05_i8", "c05::c05_i64", "c05::c05_int", "c05::c05_char", "c04::c04_datatype", "c03::c03_u64", "c03::c03_i64", "c03::c03_simple", "c06::c06_lm"],
+                  "thorough": ["c05::c05_", "c04::c04_", "c03::c03_", "c06::c06_lm", "c06::c06_a1_n1", "c06::c06_a1_n2", "::q::c01", "::q::c07"]}, features=("alloc",), timeout={"quick": 400, "thorough": 7200}),
+            core(["c05::c05_", "c04::c04_", "c03::c03_", "c12::c12_", "c11_gen::q::"], features=("half", "std"), tiers=["thorough"]),
+            core(["c05::c05_", "c04::c04_", "c03::c03_", "::q::c01", "::q::c07"], features=("std",), tiers=["thorough"]),
+            core(["c05::c05_", "c04::c04_", "c12::c12_", "c11_gen::q::"], features=("half", "alloc"), tiers=["thorough"]),
+            serde({"quick": ["c17::c17_ser_u8", "c17::c17_ser_u64", "c17::c17_de_u8", "c17::c17_de_u64", "c17::c17_de_seq_def2", "c17::c17_de_seq_indef2", "c17::c17_de_tuple_len"], "thorough": ["c17::c17_"]}, features=(), timeout={"quick": 400, "thorough": 3600}),
+            serde(["c17::c17_"], features=("half", "alloc"), tiers=["thorough"]),
+            serde(["c17::c17_"], features=("half", "std"), tiers=["thorough"]),
         ],
     },
     "C11": {
